@@ -55,6 +55,10 @@ func outsideSnapshot(m afero.Fs, root string) string {
 	// (a directory listing itself), on which afero.Walk would not terminate
 	var visit func(p string, depth int)
 	visit = func(p string, depth int) {
+		inside := p == root || strings.HasPrefix(p, strings.TrimSuffix(root, "/")+"/")
+		if inside {
+			return // whatever happens to the root's own subtree (including its removal) is not outside
+		}
 		fi, err := m.Stat(p)
 		if err != nil {
 			lines = append(lines, p+" walk-error "+err.Error())
@@ -64,9 +68,7 @@ func outsideSnapshot(m afero.Fs, root string) string {
 			lines = append(lines, p+" tree-too-deep (cyclic?)")
 			return
 		}
-		inside := p == root || strings.HasPrefix(p, strings.TrimSuffix(root, "/")+"/")
 		switch {
-		case inside:
 		case strings.HasPrefix(root, strings.TrimSuffix(p, "/")+"/"):
 			// ancestors of root are outside too, but their mtime/listing legitimately changes when
 			// root's own entry changes; only their existence and mode are recorded
@@ -77,7 +79,7 @@ func outsideSnapshot(m afero.Fs, root string) string {
 			b, _ := afero.ReadFile(m, p)
 			lines = append(lines, fmt.Sprintf("%s file %v %d %x", p, fi.Mode(), fi.ModTime().UnixNano(), b))
 		}
-		if fi.IsDir() && !inside {
+		if fi.IsDir() {
 			fis, _ := afero.ReadDir(m, p)
 			for _, c := range fis {
 				visit(filepath.Join(p, c.Name()), depth+1)
